@@ -98,7 +98,13 @@ def handlers : List (String × (List String → String)) := [
       let o : Opts := { lineNumbers := decBool ln, startLine := decNat start, lineRange := none, highlightLines := [],
                         codeWidth := decOptNat cwid, tabSize := 4, wordWrap := false, indentGuides := false, maxWidth := decNat mw,
                         optNoWrap := false, legacyWindows := false, asciiOnly := false, pad := false }
-      let m := measure o (decStr code) (decNat mw)
+      let m := measureV true o (decStr code) (decNat mw)
+      toString m.1 ++ "," ++ toString m.2
+    | [code, ln, start, cwid, mw, short] =>   -- with the variant flag (1 = as found: one short with numbers + code_width)
+      let o : Opts := { lineNumbers := decBool ln, startLine := decNat start, lineRange := none, highlightLines := [],
+                        codeWidth := decOptNat cwid, tabSize := 4, wordWrap := false, indentGuides := false, maxWidth := decNat mw,
+                        optNoWrap := false, legacyWindows := false, asciiOnly := false, pad := false }
+      let m := measureV (decBool short) o (decStr code) (decNat mw)
       toString m.1 ++ "," ++ toString m.2
     | _ => "bad-args"),
   ("syn_textsplit", fun a => match a with
